@@ -73,6 +73,14 @@ def run_one(m: dict, tier: str) -> dict:
                                 "--deselect", "tests/test_iban.py::test_pydantic_protocol"],
                                cwd=repo, env=dict(env, PYTHONPATH=str(repo)), capture_output=True, text=True)
             res["tests_pass"] = t.returncode == 0
+        for prop in m.get("quiet", []):
+            r = subprocess.run([str(VERIF / "check"), prop, tier], env=env, capture_output=True, text=True)
+            if r.returncode == 1:
+                res["errors"].append(f"FALSE ALARM by {prop}: " + r.stderr[-300:])
+            elif r.returncode != 0:
+                res["errors"].append(f"{prop}: rc={r.returncode} {r.stderr[-300:]}")
+            else:
+                res.setdefault("quiet_ok", []).append(prop)
         for prop in m["expect"]:
             r = subprocess.run([str(VERIF / "check"), prop, tier], env=env, capture_output=True, text=True)
             if r.returncode == 1 and "VIOLATION property=" + prop in r.stdout:
@@ -105,21 +113,23 @@ def main() -> int:
     with ThreadPoolExecutor(max_workers=jobs) as ex:
         for res in ex.map(lambda m: run_one(m, tier), muts):
             status = "CAUGHT" if res["caught"] and not res["missed"] and not res["errors"] else \
-                ("ERROR" if res["errors"] else "MISSED")
-            if status != "CAUGHT":
+                ("ERROR" if res["errors"] else ("QUIET" if not res["expect"] and res.get("quiet_ok") else "MISSED"))
+            if status not in ("CAUGHT", "QUIET"):
                 bad += 1
             print(f"{status:7} {res['id']:40} caught={res['caught']} missed={res['missed']} "
                   f"tests_pass={res.get('tests_pass')} {res['errors']}", flush=True)
-            results[res["id"]] = {"status": status, "tier": tier, "caught": res["caught"], "missed": res["missed"],
+            results[res["id"]] = {"status": status, "tier": tier, "caught": res["caught"], "missed": res["missed"], "quiet": res.get("quiet_ok", []),
                                   "tests_pass": res.get("tests_pass"), "errors": [e[:200] for e in res["errors"]]}
     store.write_text(json.dumps(results, indent=1, sort_keys=True))
     lines = ["# Detection record (generated by selftest/mutate.py)", "",
-             "| change | existing tests pass | checks that raised VIOLATION | checks that stayed quiet | note |",
-             "|---|---|---|---|---|"]
+             "| change | existing tests pass | checks that raised VIOLATION | checks expected to alarm that stayed quiet | "
+             "benign change: checks that rightly stayed quiet | note |",
+             "|---|---|---|---|---|---|"]
     for mid in sorted(results):
         r = results[mid]
         lines.append(f"| {mid} | {r['tests_pass']} | {', '.join(r['caught']) or '-'} | "
-                     f"{', '.join(r['missed']) or '-'} | {notes.get(mid, '')[:160]} |")
+                     f"{', '.join(r['missed']) or '-'} | {', '.join(r.get('quiet', [])) or '-'} | "
+                     f"{notes.get(mid, '')[:200]} |")
     (VERIF / "selftest" / "RESULTS.md").write_text("\n".join(lines) + "\n")
     return 1 if bad else 0
 
